@@ -749,7 +749,7 @@ Proof.
     destruct (mem_id t (cvq xw)) eqn:Mi; cbn [fst]; xn Hx; [|ploc H1 Ht Hx'].
     change (negb (nsync_cv_wait_with_deadline_generic_store3_new =? 0)) with false.
     apply mem_id_in in Mi.
-    set (xs' := {| x_pc := XwLoad13 l; x_ops := xo; x_rets := xr |}).
+    set (xs' := {| x_pc := XwLoad13 (wl_set_out l (w_so l)); x_ops := xo; x_rets := xr |}).
     set (xw' := mk_xw (set_waiting (mw xw) t false) (remove_id t (cvq xw)) (xferred xw) (lupd (xthr xw) t xs')).
     assert (forall p, p <> t -> slp xw' p = slp xw p /\ cvs xw' p = cvs xw p /\ kws xw' p = kws xw p /\ xaf xw' p = xaf xw p) as FO.
     { intros p N. apply flags_other; [exact N | reflexivity | reflexivity]. }
@@ -817,7 +817,7 @@ Proof.
   - (* XvStore *) assert (t < length (xthr xw))%nat as Ht by (apply HtN; discriminate).
     destruct (k_wake k) as [|p rest] eqn:Ek; cbn [fst]; xn Hx; [ploc H1 Ht Hx'; now rewrite Ek|].
     change (negb (wake_waiters_store1_new =? 0)) with false.
-    set (xs' := {| x_pc := XvV (mk_kl rest (k_allr k) (k_set k)) p; x_ops := xo; x_rets := xr |}).
+    set (xs' := {| x_pc := XvV (mk_kl rest (k_allr k) (k_set k) (k_clr k)) p; x_ops := xo; x_rets := xr |}).
     set (xw' := mk_xw (set_waiting (mw xw) p false) (cvq xw) (xferred xw) (lupd (xthr xw) t xs')).
     assert (forall q, wph2 (x_pc (xget xw' q)) = wph2 (x_pc (xget xw q))) as W.
     { intros q. destruct (Nat.eq_dec q t) as [->|N]; [unfold xw'; rewrite xget_lupd_same by exact Ht; now rewrite Hx'
